@@ -1,0 +1,169 @@
+//go:build verif
+
+package excelize
+
+import (
+	"fmt"
+	"sort"
+	"strings"
+)
+
+// Hooks for the package-structure check (C05): thin wrappers around the
+// unexported relationship / content-type bookkeeping and canonical dumpers of
+// the in-memory bookkeeping state. Add-only; compiled with -tags verif only.
+
+// VerifC05SetRels replaces the relationship list stored under path. Each entry
+// is {id, type, target, targetMode}.
+func VerifC05SetRels(f *File, path string, rels [][4]string) {
+	r := &xlsxRelationships{}
+	for _, e := range rels {
+		r.Relationships = append(r.Relationships, xlsxRelationship{ID: e[0], Type: e[1], Target: e[2], TargetMode: e[3]})
+	}
+	f.Relationships.Store(path, r)
+}
+
+// VerifC05AddRels calls addRels.
+func VerifC05AddRels(f *File, path, relType, target, mode string) int {
+	return f.addRels(path, relType, target, mode)
+}
+
+// VerifC05SetRelsByID calls setRels.
+func VerifC05SetRelsByID(f *File, rID, path, relType, target, mode string) int {
+	return f.setRels(rID, path, relType, target, mode)
+}
+
+// VerifC05DeleteSheetRelationships calls deleteSheetRelationships.
+func VerifC05DeleteSheetRelationships(f *File, sheet, rID string) {
+	f.deleteSheetRelationships(sheet, rID)
+}
+
+// VerifC05DeleteWorkbookRels calls deleteWorkbookRels.
+func VerifC05DeleteWorkbookRels(f *File, relType, target string) (string, error) {
+	return f.deleteWorkbookRels(relType, target)
+}
+
+// VerifC05DumpRels prints the relationship list stored under path in order.
+func VerifC05DumpRels(f *File, path string) string {
+	rels, _ := f.relsReader(path)
+	if rels == nil {
+		return "none"
+	}
+	var b strings.Builder
+	fmt.Fprintf(&b, "n=%d", len(rels.Relationships))
+	for _, r := range rels.Relationships {
+		fmt.Fprintf(&b, " %s|%s|%s|%s", verifHex(r.ID), verifHex(r.Type), verifHex(r.Target), verifHex(r.TargetMode))
+	}
+	return b.String()
+}
+
+// VerifC05SetOverrides replaces the override list of [Content_Types].xml.
+func VerifC05SetOverrides(f *File, ovr [][2]string) {
+	ct, _ := f.contentTypesReader()
+	ct.Overrides = nil
+	for _, e := range ovr {
+		ct.Overrides = append(ct.Overrides, xlsxOverride{PartName: e[0], ContentType: e[1]})
+	}
+}
+
+// VerifC05SetContentTypes calls setContentTypes.
+func VerifC05SetContentTypes(f *File, part, ct string) error { return f.setContentTypes(part, ct) }
+
+// VerifC05AddContentTypePart calls addContentTypePart.
+func VerifC05AddContentTypePart(f *File, index int, kind string) error {
+	return f.addContentTypePart(index, kind)
+}
+
+// VerifC05RemoveContentTypesPart calls removeContentTypesPart.
+func VerifC05RemoveContentTypesPart(f *File, ct, part string) error {
+	return f.removeContentTypesPart(ct, part)
+}
+
+// VerifC05DumpContentTypes prints overrides in order and defaults sorted by
+// extension (setContentTypePartImageExtensions appends in map order).
+func VerifC05DumpContentTypes(f *File) string {
+	ct, _ := f.contentTypesReader()
+	var b strings.Builder
+	fmt.Fprintf(&b, "ovr=%d", len(ct.Overrides))
+	for _, o := range ct.Overrides {
+		fmt.Fprintf(&b, " %s|%s", verifHex(o.PartName), verifHex(o.ContentType))
+	}
+	defs := make([]string, 0, len(ct.Defaults))
+	for _, d := range ct.Defaults {
+		defs = append(defs, verifHex(d.Extension)+"|"+verifHex(d.ContentType))
+	}
+	sort.Strings(defs)
+	fmt.Fprintf(&b, " def=%d", len(defs))
+	for _, d := range defs {
+		b.WriteString(" " + d)
+	}
+	return b.String()
+}
+
+// VerifC05DumpSheets prints the workbook sheet list (name, sheetId, r:id) in
+// order, SheetCount, and the sorted worksheet part paths known to the file
+// (cached worksheets and package entries under xl/worksheets/, no rels).
+func VerifC05DumpSheets(f *File) string {
+	wb, _ := f.workbookReader()
+	var b strings.Builder
+	fmt.Fprintf(&b, "sheets=%d", len(wb.Sheets.Sheet))
+	for _, s := range wb.Sheets.Sheet {
+		fmt.Fprintf(&b, " %s|%d|%s", verifHex(s.Name), s.SheetID, verifHex(s.ID))
+	}
+	fmt.Fprintf(&b, " count=%d", f.SheetCount)
+	set := map[string]struct{}{}
+	f.Sheet.Range(func(k, v interface{}) bool {
+		if v != nil {
+			set[k.(string)] = struct{}{}
+		}
+		return true
+	})
+	f.Pkg.Range(func(k, v interface{}) bool {
+		p := k.(string)
+		if strings.HasPrefix(p, "xl/worksheets/") && !strings.Contains(p, "_rels/") {
+			set[p] = struct{}{}
+		}
+		return true
+	})
+	parts := make([]string, 0, len(set))
+	for p := range set {
+		parts = append(parts, p)
+	}
+	sort.Strings(parts)
+	fmt.Fprintf(&b, " parts=%d", len(parts))
+	for _, p := range parts {
+		b.WriteString(" " + verifHex(p))
+	}
+	return b.String()
+}
+
+// VerifC05Trim builds a sheetData from a specification, runs the save-time
+// trimRow on it and prints the resulting rows. The specification is a list of
+// rows; each row is {r, attr(0/1)} followed by its cells {col, row, hasValue(0/1)}.
+func VerifC05Trim(rows [][]int) string {
+	sd := xlsxSheetData{}
+	for _, spec := range rows {
+		row := xlsxRow{R: spec[0], Hidden: spec[1] == 1}
+		for i := 2; i+2 < len(spec); i += 3 {
+			name, _ := CoordinatesToCellName(spec[i], spec[i+1])
+			c := xlsxC{R: name}
+			if spec[i+2] == 1 {
+				c.V = "1"
+			}
+			row.C = append(row.C, c)
+		}
+		sd.Row = append(sd.Row, row)
+	}
+	out := trimRow(&sd)
+	var b strings.Builder
+	fmt.Fprintf(&b, "rows=%d", len(out))
+	for _, r := range out {
+		fmt.Fprintf(&b, " R%d:", r.R)
+		for i, c := range r.C {
+			if i > 0 {
+				b.WriteByte(',')
+			}
+			b.WriteString(c.R)
+		}
+	}
+	return b.String()
+}
